@@ -1,6 +1,7 @@
 (* Case runner for histories (C13, C19): <storage> TAB <ops> TAB <psl table>.
    ops = op|op|...; an op is a request in the harness encoding whose kind is
-   "url" / "host" (NetworkEngine.MatchAll), "dns" (DNSEngine.MatchRequest) or "close" (the lists become unreadable).
+   "url" / "host" (NetworkEngine.MatchAll), "web" (Engine.MatchRequest: verdict and cosmetic option), "dns"
+   (DNSEngine.MatchRequest) or "close" (the lists become unreadable).
    The STATEFUL model (Model/Session.v) is executed on the history from the initial state. *)
 From Coq Require Import List NArith ZArith Bool.
 From Coq Require Import Strings.Byte.
@@ -27,6 +28,9 @@ Definition decode_op (psl : bytes -> bytes * bool) (s : bytes) : res (op * optio
         Ok (QDns host cname ip tags dtype, Some (new_hostname_request psl host cname ip tags dtype))
       | _, _, _, _, _ => Err
       end
+    else if bytes_eqb kind $"web" then
+      (* Engine.MatchRequest: the request is decoded like a "url" request; its referrer is looked up by the model *)
+      do q <- decode_req psl (join $";" [$"url"; url; source; typ; host; cname; cip; tags; dtype]); Ok (QWeb q, Some q)
     else do q <- decode_req psl s; Ok (QNet q, Some q)
   | _ => Err
   end.
@@ -37,6 +41,9 @@ Definition show_answer (a : answer) : bytes :=
   | ADns r matched =>
     sorted_set (map nr_text (dr_network_rules r)) ++ $"/" ++ cls_of (dr_network_rule r) ++ $"/" ++
     sorted_set (map hr_text (dr_v4 r)) ++ $"/" ++ sorted_set (map hr_text (dr_v6 r)) ++ $"/" ++ enc_bool matched
+  | AWeb m =>
+    $"W" ++ cls_of (get_basic_result m) ++ $"/" ++
+    (match get_basic_result m with Some r => hex_encode (nr_text r) | None => $"nil" end) ++ $"/" ++ dec_of_N (get_cosmetic_option (option_map (fun b => (nr_whitelist b, nr_enabled b)) (mr_basic m)))
   | ANone => $"c"
   end.
 
